@@ -226,6 +226,7 @@ def g_from(m, path, v):
         return VecObj(list(dv.items)) if isinstance(dv, VecObj) else VecObj(dv.vec.items[dv.lo:dv.hi])
     if ty == srcb and ty is not None and (ty, "From") not in m.world.impl_pairs(): return v       # reflexive From<T> for T
     if ty == "Box": return BoxObj(v)
+    if ty == "ArcIntern": return Agg("ArcIntern", None, [v])
     from machine import INT_BITS
     if ty in INT_BITS and ty != "bool" and srcb in INT_BITS:
         if srcb == "bool":
@@ -320,6 +321,15 @@ M["std::convert::identity"] = M["identity"] = lambda m, v: v
 M["std::hint::must_use"] = M["must_use"] = lambda m, v: v
 M["std::intrinsics::cold_path"] = M["cold_path"] = lambda m: UNIT
 M["std::hint::black_box"] = lambda m, v: v
+def ptr_eq(m, a, b):
+    """pointer identity: same storage slot (or the same heap object)"""
+    while isinstance(a, Ref) and isinstance(a.get(), Ref): a = a.get()
+    while isinstance(b, Ref) and isinstance(b.get(), Ref): b = b.get()
+    if isinstance(a, Ref) and isinstance(b, Ref): return a.cont is b.cont and a.key == b.key
+    return a is b
+
+
+M["std::ptr::eq"] = M["core::ptr::eq"] = M["ptr::eq"] = ptr_eq
 M["Box::new"] = lambda m, v: BoxObj(v)
 M["Arc::new"] = lambda m, v: Agg("Arc", None, [v])
 M["Rc::new"] = lambda m, v: Agg("Rc", None, [v])
@@ -834,7 +844,11 @@ M["core::bool::then"] = M["bool::then"] = lambda m, b, f: SOME(m.call_value(f, [
 M["core::bool::then_some"] = M["bool::then_some"] = lambda m, b, v: SOME(v) if m.branch_bool(b) else NONE()
 M["std::cmp::max"] =lambda m, a, b: b if cmp_values(m, a, b) <= 0 else a
 M["std::cmp::min"] = lambda m, a, b: a if cmp_values(m, a, b) <= 0 else b
-M["std::cmp::Ordering::is_eq"] = lambda m, o: o.tag == 1
+M["std::ops::Range::is_empty"] = M["Range::is_empty"] = lambda m, r: not (cmp_values(m, deref(r).fields[0], deref(r).fields[1]) < 0)
+M["std::ops::Range::contains"] = M["Range::contains"] = lambda m, r, x: cmp_values(m, deref(r).fields[0], deref(x)) <= 0 and cmp_values(m, deref(x), deref(r).fields[1]) < 0
+M["std::ops::RangeInclusive::contains"] = lambda m, r, x: cmp_values(m, deref(r).fields[0], deref(x)) <= 0 and cmp_values(m, deref(x), deref(r).fields[1]) <= 0
+M["std::ops::Range::len"] = lambda m, r: max(0, deref(r).fields[1] - deref(r).fields[0])
+M["std::cmp::Ordering::is_eq"] =lambda m, o: o.tag == 1
 M["std::cmp::Ordering::then_with"] = lambda m, o, f: o if o.tag != 1 else m.call_value(f, [])
 M["std::cmp::Ordering::then"] = lambda m, o, p: o if o.tag != 1 else p
 M["std::cmp::Ordering::reverse"] = lambda m, o: Agg("Ordering", 2 - o.tag, [])
